@@ -26,8 +26,8 @@ def compute_wind_fields(u_rot, wind_dir):
             - v (float): Meridional wind component (north-south, positive = northward).
     """
     wind_dir = np.deg2rad(wind_dir)
-    u = -u_rot * np.sin(wind_dir)
-    v = -u_rot * np.cos(wind_dir)
+    u = -(u_rot * np.sin(wind_dir))
+    v = -(u_rot * np.cos(wind_dir))
 
     return u, v
 
